@@ -165,7 +165,7 @@ def replay(path, src=None, quiet=False):
     if not quiet:
         print("replay %s: expected %s, got %s -> %s" % (path, doc["signature"], got or "no violation", "REPRODUCED" if ok else "NOT REPRODUCED"))
         for v in out["violations"]:
-            print("  ", json.dumps(v, ensure_ascii=False)[:600])
+            print("  ", json.dumps(W.to_jsonable(v), ensure_ascii=False)[:600])
     return ok, out
 
 
@@ -184,20 +184,43 @@ def check(prop, tier, master, cases=None, src=None, log=print, write_evidence=Tr
     if hasattr(mod, "extra_phase"):
         more, extra = mod.extra_phase(tier, master, facts, src, log)
         outs = outs + more
+    # regression phase: every committed replay file of this property (repaired defects and known findings) is re-executed on every run
+    reg_cases = []
+    for sub in ("fixed", "known"):
+        d = os.path.join(REPLAY_DIR, sub)
+        if os.path.isdir(d):
+            for name in sorted(os.listdir(d)):
+                if name.endswith(".json"):
+                    with open(os.path.join(d, name), encoding="utf-8") as fh:
+                        doc = json.load(fh)
+                    if doc.get("property") == prop:
+                        c = W.from_jsonable(doc["case"])
+                        c["index"] = 2 * 10**9 + len(reg_cases)
+                        c["_regression"] = "%s/%s" % (sub, name)
+                        reg_cases.append(c)
+    if reg_cases:
+        reg_outs = run_cases(prop, reg_cases, src=src)
+        for c, o in zip(reg_cases, reg_outs):
+            if "stats" in o:
+                o["stats"]["regression_replays"] = 1
+                if o["violations"]:
+                    o["stats"]["regression_replays_still_failing"] = 1
+            log("regression replay %s: %s" % (c["_regression"], "no violation" if not o.get("violations") else sorted({minimize.vsig(prop, v) for v in o["violations"]})))
+        outs = outs + reg_outs
     stats, sigs, nt_sigs, violations, herrs = aggregate(outs)
     if herrs:
         for h in herrs[:3]:
             log("HARNESS-ERROR case index=%s seed=%s: %s" % (h["index"], h["seed"], h["harness_error"][:3000]))
         log("HARNESS-ERROR: %d case(s) failed inside the harness" % len(herrs))
         return 2
-    known = load_known()
+    known = {} if os.environ.get("RP2SIM_IGNORE_KNOWN") else load_known()
     by_sig = {}
     for index, seed, v, vcase in violations:
         by_sig.setdefault(minimize.vsig(prop, v), []).append((index, seed, v, vcase))
     new_sigs = [s for s in by_sig if s not in known]
     for s in sorted(by_sig):
         if s in known:
-            log("KNOWN-FINDING: property=%s %s (%d case(s) in this run)" % (prop, known[s], len(by_sig[s])))
+            log("KNOWN-FINDING: %s (%d case(s) in this run)" % (known[s], len(by_sig[s])))
     reported = []
     min_info = {}
     for s in sorted(new_sigs)[: int(os.environ.get("RP2SIM_MAX_REPORTS", "4"))]:
